@@ -115,7 +115,7 @@ def BInv (v : Nat) (b : Buf) : Prop :=
 
 /-- unfold a Buffer method into its weakest precondition -/
 macro "buf_wp" : tactic => `(tactic|
-  simp only [Buf.ctorCap, Buf.ctorData, Buf.attach, Buf.assign, Buf.assignSelf, Buf.prepend, Buf.prependSelf,
+  simp only [Buf.ctorCap, Buf.ctorData, Buf.attach, Buf.assign, Buf.assignSelf, Buf.prepend, Buf.prependSelf, Buf.prependSub,
     Buf.resize, Buf.termIfOwning, Buf.append, Buf.appendSelf, Buf.home, Buf.removeFront, Buf.removeBack,
     Buf.reserve, Buf.clear, Buf.default, Buf.contents,
     Buf.owning, Store.write, Store.load, noOverlap,
